@@ -61,6 +61,24 @@ ExtGood(r) ==
 
 TotGood(r) == r.r \in {"ok", "err"}
 
+(* C16 on whole messages: a datagram in which a declared length runs past the enclosing element (or past the
+   datagram), or which carries octets after the top-level message, must be rejected by the message decoder *)
+ExtentReasons == {"overrun", "trailing-after-message", "trailing-in-pdu", "trailing-after-pdu", "toolong", "lenshort", "short", "usm-trailing"}
+MsgExtGood(r) ==
+  LET d == Decode(r.ver, r.b) IN
+  /\ r.r \in {"ok", "err"}
+  /\ (d.c = Reject /\ d.why \in ExtentReasons) => r.r = "err"
+
+(* C01 through the API: the receiving call returned, skipped, or raised a documented exception *)
+DocumentedExc == {"SnmpError", "SnmpDecodeError", "SnmpEncodeError", "SnmpAuthError", "NoSuchInstance", "TimeoutError", "BlockingIOError",
+                  "OSError", "ValueError", "StopIteration", "StopAsyncIteration", "ConnectionRefusedError", "NotImplementedError"}
+ApiGood(r) ==
+  \/ r.exc = ""
+  \/ /\ r.isexc                                             \* an Exception subclass (PanicException is not)
+     /\ \/ r.exc \in DocumentedExc
+        \/ \E i \in 1..Len(r.bases) : r.bases[i] \in {"SnmpError", "OSError", "ValueError"}
+        \/ (r.op = "get_many" /\ r.exc = "RuntimeError")    \* documented for get_many
+
 BadIdx(recs, G(_)) == { i \in 1..Len(recs) : ~G(recs[i]) }
 Some(s) == IF s = {} THEN <<>> ELSE LET a == CHOOSE x \in s : TRUE IN <<a>>
 
@@ -74,6 +92,7 @@ Batch(kind, G(_)) ==
 
 TNext == /\ \/ Batch("IntBatch", IntGood) \/ Batch("OidBatch", OidGood) \/ Batch("MsgBatch", MsgGood)
             \/ Batch("ExtBatch", ExtGood) \/ Batch("TotBatch", TotGood)
+            \/ Batch("MsgExtBatch", MsgExtGood) \/ Batch("ApiBatch", ApiGood)
          /\ (l' = Len(Rec) + 1) => PrintT(ToJson([fails |-> fails', nfails |-> Len(fails')]))
 TSpec == TInit /\ [][TNext]_tvars
 
